@@ -77,7 +77,7 @@ type c02Run struct {
 	// index from the previous run (they are overwritten as raft re-applies them)
 	stale  map[uint64]bool
 	labels map[string]bool
-	rec     *vh.Recorder
+	rec    *vh.Recorder
 	// next action source
 	rt  *rapid.T
 	pos int
